@@ -146,6 +146,22 @@ def execute(ctx, case: dict) -> None:
         kw = case.get("kwargs", {})
         top = sc.build_ace(case["top"], platform, **kw)
         bottom = sc.build_ace(case["bottom"], platform, **kw)
+        if case.get("standard") and platform == "ios":
+            # mixed kinds: one side is a standard entry (source address only, any protocol, any destination)
+            from cisco_acl import Ace  # pylint: disable=import-outside-toplevel
+
+            who = case["standard"]
+            desc = case[who]
+            if not desc.get("src_items") and "object-group" not in desc["src"] and "/" not in desc["src"]:
+                try:
+                    std = Ace(f"{desc['action']} {desc['src']}", platform="ios", type="standard", max_ncwb=20)
+                    if who == "top":
+                        top = std
+                    else:
+                        bottom = std
+                    ctx.count("pairs_with_a_standard_entry")
+                except (ValueError, TypeError):
+                    pass
         if case.get("twin"):
             # the bottom starts its life as a rebuild of the top *with its uuid* (Ace(**top.data(uuid=True))) and is then
             # given its own text and members: two different entries that carry one identifier
@@ -320,6 +336,18 @@ def run(ctx, exact: bool = False, groups: bool = True) -> None:
                 case["kwargs"] = {"port_nr": rng.random() < 0.5, "protocol_nr": rng.random() < 0.7}
             if rng.random() < 0.12:
                 case["twin"] = True
+            elif platform == "ios" and rng.random() < 0.08:
+                case["standard"] = rng.choice(["top", "bottom", "bottom"])
+            if platform == "ios" and rng.random() < 0.05 and case["top"]["proto"] in (6, 17):
+                # both entries carry a three-port neq list with the same lowest and highest port, other middle port
+                lo = rng.randint(1, 60000)
+                hi = lo + rng.randint(4, 50)
+                m1, m2 = rng.sample(range(lo + 1, hi), 2)
+                case["bottom"] = dict(case["top"], dport=f"neq {lo} {m2} {hi}", log="", flags=list(case["top"].get("flags") or []))
+                case["top"] = dict(case["top"], dport=f"neq {lo} {m1} {hi}")
+                for key in ("src_items", "dst_items"):
+                    if case["top"].get(key):
+                        case["bottom"][key] = list(case["top"][key])
             grouped = [(w, sd) for w in ("top", "bottom") for sd in ("src", "dst") if case[w].get(sd + "_items")]
             if grouped and rng.random() < 0.6:
                 from vcheck.checks.C13 import rand_cube, spell  # pylint: disable=import-outside-toplevel
